@@ -19,14 +19,16 @@ fn k_c17_proj(region: u8, neg: bool, image: bool) {
 /// agreement with the reference formulae, from the same libm values. In the polar caps the comparison involves a second copy
 /// of the product (x - centre) * t; two symbolic 53x53-bit multipliers are an equivalence-checking problem SAT does not
 /// solve, so the polar clause is decided for cosines with at most 10 significant bits (every longitude, every facet).
-fn k_c17_proj_ref(region: u8, neg: bool) {
+fn k_c17_proj_ref(region: u8, neg: bool, turn: u8) {
   let lon: f64 = kani::any();
   let lat: f64 = kani::any();
   kani::assume(lon >= -25.2 && lon <= 25.2 && lat >= -C_HALF_PI && lat <= C_HALF_PI);
   kani::assume(region_lat(region, lat) && (lon.to_bits() >> 63 == 1) == neg);
-  kani::cover!(lon > 7.0 || lon < -7.0, "second turn");
-  let (x, y) = hp::proj(lon, lat);
   let xa = f64::from_bits(lon.to_bits() & 0x7FFF_FFFF_FFFF_FFFF) * FOUR_OVER_PI_K;
+  // split by turn: |lon| * 4/pi in [8 turn, 8 turn + 8) (turn 3 also takes the rest up to 25.2 rad)
+  kani::assume(xa >= 8.0 * turn as f64 && (turn >= 3 || xa < 8.0 * turn as f64 + 8.0));
+  kani::cover!(xa > 8.0 * turn as f64 + 7.0, "last quarter of the turn");
+  let (x, y) = hp::proj(lon, lat);
   let x8 = xa - 8.0 * ((xa * 0.125) as u64 as f64);
   let ax = f64::from_bits(x.to_bits() & 0x7FFF_FFFF_FFFF_FFFF);
   let alat = f64::from_bits(lat.to_bits() & 0x7FFF_FFFF_FFFF_FFFF);
